@@ -456,6 +456,35 @@ def r01_7(ctx):
     ctx.decide('R01.7', gi.qual, 'meshsupp = self.nqp * mesh_support_idx_all()', has('_meshsupp{k}=self.nqp*kvs{sp}[{k}].mesh_support_idx_all()'), gi.node,
                'support intervals converted from cells to Gauss nodes')
     ctx.decide('R01.7', gi.qual, 'bbox_ofs = bb[0] * self.nqp', has('self.bbox_ofs[:]=tuple(bb[0]*self.nqpforbbinbbox)'), gi.node, 'box offset converted from cells to Gauss nodes')
+    # semantic form of the two conversions: the emitted assignment is parsed and the factor that turns cell indices into
+    # node indices must be the common node count nqp (the tensor Gauss grid has nqp = max degree + 1 nodes per cell on
+    # EVERY axis, R01.4) -- a per-axis quantity such as kv.p + 1 addresses other nodes on the lower-degree axes
+    for frag, what in (('self.bbox_ofs[:]', 'offset of the bounding box'), ('self.S{sp}_meshsupp{k}', 'support intervals')):
+        lines = [l for l in lits if l.replace(' ', '').startswith(frag.replace(' ', '') + '=') and 'np.arange(2' not in l]
+        if not lines:
+            ctx.undecided('R01.7', gi.qual, '%s in Gauss-node units' % what, gi.node, 'emitted assignment not found')
+            continue
+        try:
+            tree = ast.parse(lines[0].replace('{k}', '0').replace('{sp}', '0').strip())
+        except SyntaxError:
+            ctx.undecided('R01.7', gi.qual, '%s in Gauss-node units' % what, gi.node, 'emitted line is not parsable')
+            continue
+        mults = [b for b in ast.walk(tree) if isinstance(b, ast.BinOp) and isinstance(b.op, ast.Mult)]
+        unit_ok = None
+        for b in mults:
+            sides = [src(b.left), src(b.right)]
+            cellside = [s for s in sides if 'bb[0]' in s or 'mesh_support_idx_all' in s]
+            if cellside:
+                other = [s for s in sides if s not in cellside]
+                unit_ok = bool(other) and other[0].replace(' ', '') in ('self.nqp', 'nqp')
+                culprit = other[0] if other else '?'
+        if unit_ok is None:
+            ctx.undecided('R01.7', gi.qual, '%s in Gauss-node units' % what, gi.node, 'conversion factor not recognised in `%s`' % lines[0].strip()[:80])
+        else:
+            ctx.decide('R01.7', gi.qual, '%s in Gauss-node units' % what, unit_ok, gi.node,
+                       'cell indices are multiplied by the common node count nqp' if unit_ok else
+                       'emitted `%s`: cell indices are multiplied by `%s`, not by the common node count nqp that the quadrature grid uses on every axis: '
+                       'on an axis of lower degree the window of Gauss nodes is shifted' % (lines[0].strip()[:90], culprit), definite=True)
     hdr = ctx.prog.func(CG + '.AsmGenerator.gen_entry_impl_header')
     hl = [n.value.replace(' ', '') for n in ast.walk(hdr.node) if isinstance(n, ast.Constant) and isinstance(n.value, str)]
     ok = any(l.startswith('g_sta[{k}]=intv.a-self.bbox_ofs[{k}]') for l in hl) and any(l.startswith('g_end[{k}]=intv.b-self.bbox_ofs[{k}]') for l in hl)
